@@ -272,7 +272,7 @@ Qed.
 
 Lemma sweep_cases st now mn mx ch w fr :
   exists st1 fr1 wk n,
-    sweep_each st (sort_ids ch) w fr = (st1, fr1, wk, n) /\
+    sweep_each st ch w fr = (st1, fr1, wk, n) /\
     step st now (Job JDeadLetterSweep mn mx ch false w fr) =
       done st1 (RCount (Z.of_nat (length ch))) wk
         ((if choice_legal (job_matches st JDeadLetterSweep now mn) ch mx then []
@@ -280,7 +280,7 @@ Lemma sweep_cases st now mn mx ch w fr :
          match fr1 with [] => [] | _ => ["unexpected-delivery"%string] end).
 Proof.
   unfold step, run_job.
-  destruct (sweep_each st (sort_ids ch) w fr) as [[[st1 fr1] wk] n].
+  destruct (sweep_each st ch w fr) as [[[st1 fr1] wk] n].
   exists st1, fr1, wk, n. split; reflexivity.
 Qed.
 
@@ -315,7 +315,7 @@ Proof.
       * intros i Hi; exact Hi.
     + intros i; reflexivity.
     + split; [reflexivity|]. split; [reflexivity|]. apply evo_refl.
-    + intros i Hi. apply in_sort_ids in Hi.
+    + intros i Hi.
       unfold choice_legal in Ech. apply andb_true_iff in Ech. destruct Ech as [Ech _].
       apply andb_true_iff in Ech. destruct Ech as [_ Hall].
       rewrite forallb_forall in Hall. specialize (Hall i Hi). apply mem_id_In in Hall.
